@@ -25,6 +25,7 @@ Decided (label, scope and stack-pointer discipline of the code generator; struct
  R8 K5  no type-checking comparison in the compiler compares a value with itself.
  R9 K9  query cursors: a `return` out of a `map` body releases the loop's cursor (typestate of
         query_iter_stack) - today a KNOWN FINDING, see known_findings.json.
+ R10 K1 the fact literal of `map .. as x` is lowered in the enclosing scope, before `x` is added.
 Not decided: type mismatches, undefined variables and stack underflow for arbitrary accepted
 programs (needs the soundness of the type checker in lower.rs; value-level)."""
 from rules.core import emit, pat
@@ -358,6 +359,7 @@ def struct_literal_rule(F, rep):
     arity_rule(F, rep)
     self_comparison_rule(F, rep)
     cursor_release_rule(F, rep)
+    map_scope_rule(F, rep)
 
 
 def arity_rule(F, rep):
@@ -488,3 +490,24 @@ def cursor_release_rule(F, rep):
               "nothing releases the query cursor when `return` leaves a `map` body: RunState::step's Return arm does not touch query_iter_stack and the `return` templates emit no "
               "cursor-popping instruction; after the callee returns, the caller's enclosing `map` takes its next row from the callee's cursor (wrong fact) and the VM stops with an "
               "invalid-struct-member error", step.site())
+
+
+def map_scope_rule(F, rep):
+    """R10: compile-time and run-time scopes agree for `map F[..] as x { .. }`: the VM evaluates the fact literal
+    once, *before* the loop defines `x`, so lowering must type-check the literal in the enclosing scope - before
+    it opens the loop's block and adds the binding. (Otherwise `map Pet[name: p.name] as p` is accepted and the VM
+    stops with an undefined-variable error.)"""
+    ls = F.fn("aranya_policy_compiler::compile::lower::lower_statements")
+    sws = ls.discr_switches("ast::StmtKind")
+    if len(sws) != 1 or "Map" not in sws[0][1]:
+        rep.anchor_missing("lower_statements: Map arm")
+        return
+    reg = ls.reachable(sws[0][1]["Map"], cut_blocks={sws[0][0]})
+    lf = [c for c in ls.calls if c.name == "lower_fact_literal" and ls.dominates(sws[0][1]["Map"], c.bb)]
+    eb = [c for c in ls.calls if c.name == "enter_block" and ls.dominates(sws[0][1]["Map"], c.bb)]
+    ad = [c for c in ls.calls if c.name == "add" and c.path and "IdentifierTypeStack" in c.path and ls.dominates(sws[0][1]["Map"], c.bb)]
+    ok = len(lf) == 1 and bool(eb) and bool(ad) and all(ls.dominates(lf[0].bb, x.bb) for x in eb + ad)
+    rep.check(ok, "lower|map-literal-in-enclosing-scope", "K1 must-pass-through",
+              "the map statement's fact literal is lowered before the loop's block is entered and the `as` binding is added",
+              "lower_statements lowers a map statement's fact literal after the `as` binding is already in scope: a literal that refers to its own binding type-checks, "
+              "but the VM evaluates it before the binding exists (undefined variable)", ls.site())
